@@ -110,9 +110,14 @@ def appended_files_must_exist(ctx: Ctx, rid: str = "C11.R8") -> None:
     pn = next((p.name for p in cf.params if "append" in p.name), "append_files")
     for m in [n for n in g.calls() if any(t.name == "create_manifest_file" for t in ctx.eff.callees(cf, n))]:
         first = m.ast.args[0] if isinstance(m.ast, ast.Call) and m.ast.args else kwarg(m.ast, "data_files")
-        if first is None or pn not in (names_in(first) | sl.origins(first, m.id)["params"]):
+        appended = pn in (names_in(first) | sl.origins(first, m.id)["params"]) if first is not None else False
+        if first is not None and not appended:
+            # the appended files travel in a record (`plan.append_files`): found by the field's name
+            appended = any(nm.split(".")[-1] == "append_files" for nm in names_in(first) | sl.origins(first, m.id)["names"])
+        if first is None or not appended:
             continue  # the delete-rewrite manifests carry existing files only
-        ok = any(v.id in dom[m.id] and isinstance(v.ast, ast.Call) and v.ast.args and pn in names_in(v.ast.args[0]) for v in vcalls)
+        ok = any(v.id in dom[m.id] and isinstance(v.ast, ast.Call) and v.ast.args
+                 and (pn in names_in(v.ast.args[0]) or any(nm.split(".")[-1] == "append_files" for nm in names_in(v.ast.args[0]))) for v in vcalls)
         ctx.ob(rid, cf, "commit-time validation dominates the manifest of appended files", m, ok,
                "validate_data_files(append_files) runs on every attempt before the manifest is written")
 
